@@ -546,7 +546,53 @@ func c10first(doc m, section string) m {
 	return nil
 }
 
+// c10objects collects every JSON object of the document with its path, except the free-form maps of the
+// schema (label maps).
+func c10objects(v any, path string, out *[]struct {
+	Path string
+	Obj  m
+}) {
+	switch x := v.(type) {
+	case map[string]any:
+		if !strings.HasSuffix(path, "matchLabels") {
+			*out = append(*out, struct {
+				Path string
+				Obj  m
+			}{path, x})
+		}
+		for _, k := range vlib.SortedKeys(x) {
+			if k == "matchLabels" {
+				continue
+			}
+			c10objects(x[k], path+"/"+k, out)
+		}
+	case []any:
+		for _, it := range x {
+			c10objects(it, path+"[]", out)
+		}
+	}
+}
+
+// c10anywhereSeq varies the object chosen by the unknown-field/anywhere fault from case to case.
+var c10anywhereSeq int
+
 var c10faults = []c10fault{
+	{"unknown-field/anywhere", func(d m) bool {
+		// an unknown key in an object at any depth of the document (the schema closes every object)
+		var objs []struct {
+			Path string
+			Obj  m
+		}
+		c10objects(d, "", &objs)
+		if len(objs) == 0 {
+			return false
+		}
+		c10anywhereSeq++
+		o := objs[(c10anywhereSeq*7)%len(objs)]
+		o.Obj["zzUnknownKey"] = "x"
+		d["__where"] = o.Path
+		return true
+	}},
 	{"unknown-field/top", func(d m) bool { d["onStartUp"] = 1.0; return true }},
 	{"unknown-field/schedule", func(d m) bool {
 		s := c10first(d, "schedule")
@@ -706,6 +752,10 @@ func TestC10Reject(t *testing.T) {
 		var res vlib.Result
 		g := c10gen{c.Rng}
 		f := c10faults[c.Index%len(c10faults)]
+		if c.Index%2 == 1 {
+			f = c10faults[0] // every other case: an unknown key in an object chosen anywhere in the document
+		}
+		c10anywhereSeq = c.Rng.IntN(1 << 20)
 		var doc m
 		ok := false
 		for try := 0; try < 60 && !ok; try++ {
@@ -717,6 +767,8 @@ func TestC10Reject(t *testing.T) {
 			res.Inconclusive = "no base config with the needed section after 60 tries"
 			return res
 		}
+		where, _ := doc["__where"].(string)
+		delete(doc, "__where")
 		mode := []string{"json", "yaml"}[c.Rng.IntN(2)]
 		var data []byte
 		if mode == "json" {
@@ -729,7 +781,11 @@ func TestC10Reject(t *testing.T) {
 		if p != nil {
 			res.Violate("panic/"+f.Name, "config:\n%s\npanic: %v", data, p)
 		} else if err == nil {
-			res.Violate("accepted/"+f.Name, "single-fault mutation %q of a valid config was accepted:\n%s", f.Name, data)
+			sig := "accepted/" + f.Name
+			if where != "" {
+				sig += where
+			}
+			res.Violate(sig, "single-fault mutation %q of a valid config was accepted:\n%s", f.Name, data)
 		}
 		res.Key = f.Name + "/" + mode + "/" + strings.Join(vlib.SortedKeys(doc), "+")
 		if c.Index < len(c10faults) && c.Index%7 == 0 {
